@@ -29,13 +29,40 @@ def spec_mass(ram, comp):
     return SP.ssum(comp, mass_term(ram))
 
 
+def _loop_over_the_items_of(comp):
+    """where= predicate of v.invariant: the for-loop iterates the items view of the symbolic mapping `comp` itself - recognised by WHAT is iterated
+    (the sequence the engine hands over is comp's items: same ghost order, same length), not by the function the loop lives in nor by the
+    spelling of the iterable (`composition.items()` in place, or a parameter the items were passed in as); the loop target must take the
+    (key, value) pair apart or name it, and the loop has no else-branch"""
+    import ast
+    from pyvc.sym import to_z3
+
+    def pred(for_node, frame, seq):
+        name = getattr(comp, "name", None)          # (a python dict in the sampled mode: loops over it run natively and need no invariant)
+        if name is None or getattr(seq, "name", None) != name + ".items" or for_node.orelse:
+            return False
+        it = for_node.iter
+        spelled = (isinstance(it, ast.Call) and isinstance(it.func, ast.Attribute) and it.func.attr == "items" and not it.args and not it.keywords) or isinstance(it, ast.Name)
+        if not spelled or not isinstance(for_node.target, (ast.Tuple, ast.List, ast.Name)):
+            return False
+        try:
+            return bool(to_z3(seq.sym_len()).eq(to_z3(comp.sym_len())))
+        except Exception:
+            return False
+    return pred
+
+
 @harness("C14", "mass_from_composition", functions=["chempy.util.periodic:mass_from_composition"])
 def _(v):
     from chempy.util import periodic
     comp = v.dict("composition", K="int", V="real", key_lo=0, key_hi=118, val_lo=-50, val_hi=50, maxlen=5)
     ram = periodic.relative_atomic_masses
     term = mass_term(ram)
-    v.invariant(periodic.mass_from_composition, 0, lambda env, i, seq: env["@acc"] == SP.ssum_prefix(seq, i, term))
+    # the property is about the value returned, not about which function holds the accumulation loop: the invariant (a proof aid, stated about
+    # '@acc' = the single loop-carried variable, whatever it is called) is offered to loop #0 of mass_from_composition and, failing that, to the
+    # for-loop that runs over the items of THE composition under test wherever it is reached from the call (moved into a private helper, handed
+    # over as an argument, ...).  A loop over anything else - the keys, another mapping, a re-ordered copy - is not caught by it.
+    v.invariant(periodic.mass_from_composition, 0, lambda env, i, seq: env["@acc"] == SP.ssum_prefix(seq, i, term), where=_loop_over_the_items_of(comp))
     r = v.call(periodic.mass_from_composition, comp)
     v.prove("post", v.eq(r, SP.ssum(comp, term)))
     v.prove("canary", SP.neg(v.eq(r, SP.ssum(comp, term) + 1)))
@@ -170,34 +197,72 @@ for _n in (1, 2, 3, 4):
     _mf_harness(_n)
 
 
+def _each_on_its_own(v):
+    """-> ob(name, cond, detail=None) for data harnesses: ONE obligation decided on its own.  `cond` (and `detail`, where it is computed from the code's
+    answers) are thunks; an exception of the code under test in there (a table that is not there or of another shape, a call that is refused) fails THIS
+    obligation with the exception as detail and leaves the remaining obligations of the harness to be decided"""
+    def ob(name, cond, detail=None):
+        try:
+            ok = bool(cond())
+            text = (detail() if callable(detail) else detail) or ""
+        except Exception as ex:
+            ok, text = False, repr(ex)[:200]
+        v.prove(name, ok, text)
+    return ob
+
+
+def _weights_helper(p):
+    """the private helper the weights are parsed with, found by its ROLE (a private function of chempy.util.periodic that takes no argument and
+    produces the 118 weights), under its present name first; None when there is no such helper (inlined, made a comprehension, ...)"""
+    import inspect
+    named = getattr(p, "_get_relative_atomic_masses", None)
+    if callable(named):
+        return named
+    for name, f in sorted(vars(p).items()):
+        if not (name.startswith("_") and inspect.isfunction(f) and f.__module__ == p.__name__):
+            continue
+        try:
+            if inspect.signature(f).parameters:
+                continue
+            out = tuple(f())
+        except Exception:
+            continue
+        if len(out) == 118 and all(isinstance(x, (int, float)) and not isinstance(x, bool) for x in out):
+            return f
+    return None
+
+
 @harness("C14", "tables", functions=["chempy.util.periodic:_get_relative_atomic_masses", "chempy.util.periodic:<module tables>", "chempy.util.periodic:mass_from_composition"], kind="data")
 def _(v):
     from chempy.util import periodic as p
     T = iupac.TABLE
-    v.prove("n_elements", len(p._elements) == 118 and len(p.symbols) == 118 and len(p.names) == 118 and len(p.relative_atomic_masses) == 118)
-    v.prove("symbols", all(p.symbols[z - 1] == s for z, s, n, m in T), "symbol table differs from reference")
-    v.prove("names", all(p.names[z - 1] == n and p.lower_names[z - 1] == n.lower() for z, s, n, m in T), "names differ")
-    v.prove("masses", all(p.relative_atomic_masses[z - 1] == m for z, s, n, m in T),
-            "atomic weights differ: %s" % [(z, s, p.relative_atomic_masses[z - 1], m) for z, s, n, m in T if p.relative_atomic_masses[z - 1] != m][:3])
-    v.prove("generator", tuple(p._get_relative_atomic_masses()) == tuple(m for z, s, n, m in T))
+    ob = _each_on_its_own(v)
+    # the tables the library EXPOSES (the private list they are made from is no part of the property)
+    ob("n_elements", lambda: len(p.symbols) == 118 and len(p.names) == 118 and len(p.lower_names) == 118 and len(p.relative_atomic_masses) == 118)
+    ob("symbols", lambda: all(p.symbols[z - 1] == s for z, s, n, m in T), "symbol table differs from reference")
+    ob("names", lambda: all(p.names[z - 1] == n and p.lower_names[z - 1] == n.lower() for z, s, n, m in T), "names differ")
+    ob("masses", lambda: all(p.relative_atomic_masses[z - 1] == m for z, s, n, m in T),
+       lambda: "atomic weights differ: %s" % [(z, s, p.relative_atomic_masses[z - 1], m) for z, s, n, m in T if p.relative_atomic_masses[z - 1] != m][:3])
+    # the weights as parsed: by the private helper where there is one (whatever it is called, whatever iterable it gives), otherwise - no helper
+    # to ask - the exposed table as a whole (all 118 and no more, each a float: the parsed form of the tabulated value)
+    helper = _weights_helper(p)
+    if helper is not None:
+        ob("generator", lambda: tuple(helper()) == tuple(m for z, s, n, m in T), "the weights given by %s differ from the reference" % getattr(helper, "__name__", helper))
+    else:
+        ob("generator", lambda: tuple(p.relative_atomic_masses) == tuple(m for z, s, n, m in T) and all(type(x) is float for x in p.relative_atomic_masses),
+           "no private parsing helper: the exposed weights as a whole differ from the reference")
     # membership of the groups (any container, any order: the property has no clause about the container type)
     ref_groups = {18: iupac.NOBLE_GASES, 1: iupac.ALKALI, 2: iupac.ALKALINE_EARTH, 17: iupac.HALOGENS, 16: iupac.CHALCOGENS, 15: iupac.PNICTOGENS, 14: iupac.CRYSTALLOGENS, 13: iupac.ICOSAGENS}
-    try:
-        groups_ok = sorted(p.groups) == sorted(ref_groups) and all(sorted(p.groups[g]) == sorted(ref) and len(p.groups[g]) == len(ref) for g, ref in ref_groups.items())
-        detail = ""
-    except Exception as ex:
-        groups_ok, detail = False, repr(ex)[:200]
-    v.prove("groups", groups_ok, detail)
-    v.prove("periods", tuple(p.period_lengths) == (2, 8, 8, 18, 18, 32, 32) and tuple(p.accum_period_lengths) == (2, 10, 18, 36, 54, 86, 118))
+    ob("groups", lambda: sorted(p.groups) == sorted(ref_groups) and all(sorted(p.groups[g]) == sorted(ref) and len(p.groups[g]) == len(ref) for g, ref in ref_groups.items()))
+    ob("periods", lambda: tuple(p.period_lengths) == (2, 8, 8, 18, 18, 32, 32) and tuple(p.accum_period_lengths) == (2, 10, 18, 36, 54, 86, 118))
     # the electron mass THE CODE uses (measured: the mass of one electron, composition {0: -1}) is the constant of this contract (to rounding of
     # 0.0 + x) and within 1e-3 relative of CODATA (META: its accuracy beyond that is assumed, not decided)
-    try:
-        used = p.mass_from_composition({0: -1})
-        electron_ok = abs(used - ELECTRON) <= 1e-18 and abs(used / iupac.ELECTRON_MASS_U - 1) < 1e-3 and abs(ELECTRON / iupac.ELECTRON_MASS_U - 1) < 1e-3
-        detail = "electron mass used by mass_from_composition: %r" % (used,)
-    except Exception as ex:
-        electron_ok, detail = False, repr(ex)[:200]
-    v.prove("electron_mass", electron_ok, detail)
+    used = []
+
+    def electron_ok():
+        used.append(p.mass_from_composition({0: -1}))
+        return abs(used[0] - ELECTRON) <= 1e-18 and abs(used[0] / iupac.ELECTRON_MASS_U - 1) < 1e-3 and abs(ELECTRON / iupac.ELECTRON_MASS_U - 1) < 1e-3
+    ob("electron_mass", electron_ok, lambda: "electron mass used by mass_from_composition: %r" % (used[0],))
 
 
 def _case_variants(s):
@@ -283,32 +348,46 @@ def _(v):
     from chempy.util.periodic import relative_atomic_masses as ram
     me = ELECTRON
     close = lambda a, b: abs(a - b) < 1e-9
+    ob = _each_on_its_own(v)       # (a construction or a reading that is refused fails the obligation it belongs to, not the harness)
+
+    def ion_and_parent(first):
+        ion, neutral = [Substance.from_formula("Ce", charge=4), Substance.from_formula("Ce")] if first == "ion" else [Substance.from_formula("Ce"), Substance.from_formula("Ce", charge=4)][::-1]
+        return close(neutral.mass, ram[57]) and close(neutral.mass - ion.mass, 4 * me) and neutral.charge == 0 and ion.charge == 4
     for first in ("ion", "neutral"):
-        pair = [Substance.from_formula("Ce", charge=4), Substance.from_formula("Ce")] if first == "ion" else [Substance.from_formula("Ce"), Substance.from_formula("Ce", charge=4)][::-1]
-        ion, neutral = pair
-        v.prove("ion_and_parent_differ_by_the_electron_masses.%s_first" % first, close(neutral.mass, ram[57]) and close(neutral.mass - ion.mass, 4 * me) and neutral.charge == 0 and ion.charge == 4)
+        ob("ion_and_parent_differ_by_the_electron_masses.%s_first" % first, lambda first=first: ion_and_parent(first))
     shared = {"tag": 1}            # non-empty: an empty dict is replaced by the constructor (`data or {}`) and would not be shared at all
-    a = Substance.from_formula("NaCl", data=shared)
-    b = Substance.from_formula("H2O", data=shared)
-    ma, mb = a.mass, b.mass
+
+    def sharing():
+        a = Substance.from_formula("NaCl", data=shared)
+        b = Substance.from_formula("H2O", data=shared)
+        ma, mb = a.mass, b.mass
+        return close(ma, ram[10] + ram[16]) and close(mb, 2 * ram[0] + ram[7]) and close(a.mass, ma) and close(b.mass, mb)
     # (whether the substances keep the caller's dict itself or a copy of it is not part of the property: with a copy there is simply nothing shared)
-    v.prove("substances_sharing_a_data_dict_keep_their_own_masses", close(ma, ram[10] + ram[16]) and close(mb, 2 * ram[0] + ram[7]) and close(a.mass, ma) and close(b.mass, mb))
-    v.prove("reading_the_mass_does_not_write_into_data", shared == {"tag": 1})
+    ob("substances_sharing_a_data_dict_keep_their_own_masses", sharing)
+    ob("reading_the_mass_does_not_write_into_data", lambda: shared == {"tag": 1})
+
     # constructing an ion from a composition mapping the caller keeps using: the caller's mapping (and a parent built from it) is not given the charge
-    comp = {1: 1}
-    ion = Substance("H+", charge=1, composition=comp)
-    parent = Substance("H", composition=comp)
-    v.prove("charge_keyword_does_not_write_into_the_callers_composition", comp == {1: 1} and ion.composition == {1: 1, 0: 1} and parent.charge == 0 and close(parent.mass - ion.mass, me))
-    w1 = Substance.from_formula("Kr2O5Xe")       # a formula nothing else in this process has parsed before (first parse, not a cache hit)
-    w1.composition[8] = 3             # the caller edits ITS substance
-    w2 = Substance.from_formula("Kr2O5Xe")
-    v.prove("editing_one_substance_does_not_change_the_next", close(w2.mass, 2 * ram[35] + 5 * ram[7] + ram[53]) and close(w1.mass, 2 * ram[35] + 3 * ram[7] + ram[53]))
-    c = Substance("X", composition={1: 2, 8: 1})
-    m1 = c.mass
-    c.composition[8] = 2
-    v.prove("mass_follows_the_composition", close(m1, 2 * ram[0] + ram[7]) and close(c.mass, 2 * ram[0] + 2 * ram[7]))
-    d = Substance("Y", composition={1: 1}, data={"mass": 42.0})
-    v.prove("explicit_mass_wins", d.mass == 42.0)
+    def callers_composition():
+        comp = {1: 1}
+        ion = Substance("H+", charge=1, composition=comp)
+        parent = Substance("H", composition=comp)
+        return comp == {1: 1} and ion.composition == {1: 1, 0: 1} and parent.charge == 0 and close(parent.mass - ion.mass, me)
+    ob("charge_keyword_does_not_write_into_the_callers_composition", callers_composition)
+
+    def editing():
+        w1 = Substance.from_formula("Kr2O5Xe")       # a formula nothing else in this process has parsed before (first parse, not a cache hit)
+        w1.composition[8] = 3             # the caller edits ITS substance
+        w2 = Substance.from_formula("Kr2O5Xe")
+        return close(w2.mass, 2 * ram[35] + 5 * ram[7] + ram[53]) and close(w1.mass, 2 * ram[35] + 3 * ram[7] + ram[53])
+    ob("editing_one_substance_does_not_change_the_next", editing)
+
+    def follows():
+        c = Substance("X", composition={1: 2, 8: 1})
+        m1 = c.mass
+        c.composition[8] = 2
+        return close(m1, 2 * ram[0] + ram[7]) and close(c.mass, 2 * ram[0] + 2 * ram[7])
+    ob("mass_follows_the_composition", follows)
+    ob("explicit_mass_wins", lambda: Substance("Y", composition={1: 1}, data={"mass": 42.0}).mass == 42.0)
     # a NEGATIVE charge by keyword: the anion carries two electrons more than its parent and is heavier by their mass (hand: S 32.06 -> 32.0610978)
     try:
         sulfide, sulfur = Substance("S-2", charge=-2, composition={16: 1}), Substance("S", composition={16: 1})
@@ -351,9 +430,10 @@ def _(v):
     w = lambda sym: ram[{"H": 1, "C": 6, "N": 7, "O": 8, "Na": 11, "Mg": 12, "Al": 13, "S": 16, "Cl": 17, "Ca": 20, "Fe": 26, "Cu": 29}[sym] - 1]
     me = ELECTRON
     close = lambda a, b: abs(a - b) <= 1e-9 * max(1.0, abs(b))
-    v.prove("sum_over_the_composition", close(M("H2O"), 2 * w("H") + w("O")) and close(M("CuSO4"), w("Cu") + w("S") + 4 * w("O")) and close(M("Fe(CN)6"), w("Fe") + 6 * w("C") + 6 * w("N")))
-    v.prove("hydrate_parts_add", close(M("CuSO4..5H2O"), M("CuSO4") + 5 * M("H2O")) and close(M("Na2CO3..7H2O(s)"), M("Na2CO3") + 7 * M("H2O")) and close(M("CuSO4..5H2O..2NH3"), M("CuSO4") + 5 * M("H2O") + 2 * M("NH3")))
-    v.prove("groups_scale_with_their_multiplier", all(close(M("(H2O)%d" % k), k * M("H2O")) and close(M("Fe((CN)2)%d" % k), M("Fe") + 2 * k * (w("C") + w("N"))) for k in (1, 2, 3, 7, 12, 250)))
+    ob = _each_on_its_own(v)       # (a formula that is refused fails the obligation it belongs to, not the harness)
+    ob("sum_over_the_composition", lambda: close(M("H2O"), 2 * w("H") + w("O")) and close(M("CuSO4"), w("Cu") + w("S") + 4 * w("O")) and close(M("Fe(CN)6"), w("Fe") + 6 * w("C") + 6 * w("N")))
+    ob("hydrate_parts_add", lambda: close(M("CuSO4..5H2O"), M("CuSO4") + 5 * M("H2O")) and close(M("Na2CO3..7H2O(s)"), M("Na2CO3") + 7 * M("H2O")) and close(M("CuSO4..5H2O..2NH3"), M("CuSO4") + 5 * M("H2O") + 2 * M("NH3")))
+    ob("groups_scale_with_their_multiplier", lambda: all(close(M("(H2O)%d" % k), k * M("H2O")) and close(M("Fe((CN)2)%d" % k), M("Fe") + 2 * k * (w("C") + w("N"))) for k in (1, 2, 3, 7, 12, 250)))
     # the rest of the C01 grammar, end to end (C01 proves the compositions; here the masses, as sums written by hand): square and curly groups, nested;
     # the middle dot as hydrate separator; a two-digit hydrate count; a group inside a hydrate part; decimal subscripts
     try:
@@ -367,9 +447,9 @@ def _(v):
     except Exception as ex:
         grammar_ok, detail = False, repr(ex)[:200]
     v.prove("brackets_dot_decimals_and_nested_hydrates", grammar_ok, detail)
-    v.prove("charge_written_in_the_formula", all(close(M(par) - M(ion), q * me) for par, ion, q in (("Fe", "Fe+3", 3), ("Fe(CN)6", "Fe(CN)6-4", -4), ("SO4", "SO4-2", -2), ("Na", "Na+", 1), ("O2", "O2-", -1))) and close(M("e-"), me))
-    v.prove("phase_suffix_and_prefix_do_not_weigh", close(M("NaCl(s)"), M("NaCl")) and close(M("alpha-FeOOH(s)"), M("FeOOH")) and close(Species.from_formula("Na+(aq)").mass, M("Na+")))
-    v.prove("every_element_alone", all(close(mass_from_composition({z: 1}), ram[z - 1]) and close(mass_from_composition({z: 3, 0: 2}), 3 * ram[z - 1] - 2 * me) for z in range(1, 119)))
+    ob("charge_written_in_the_formula", lambda: all(close(M(par) - M(ion), q * me) for par, ion, q in (("Fe", "Fe+3", 3), ("Fe(CN)6", "Fe(CN)6-4", -4), ("SO4", "SO4-2", -2), ("Na", "Na+", 1), ("O2", "O2-", -1))) and close(M("e-"), me))
+    ob("phase_suffix_and_prefix_do_not_weigh", lambda: close(M("NaCl(s)"), M("NaCl")) and close(M("alpha-FeOOH(s)"), M("FeOOH")) and close(Species.from_formula("Na+(aq)").mass, M("Na+")))
+    ob("every_element_alone", lambda: all(close(mass_from_composition({z: 1}), ram[z - 1]) and close(mass_from_composition({z: 3, 0: 2}), 3 * ram[z - 1] - 2 * me) for z in range(1, 119)))
     # 'for all 118 elements': symbol -> parser -> mass and name -> atomic number -> mass against the REFERENCE rows (no index shared with the code's tables)
     try:
         from chempy.util.periodic import atomic_number
@@ -379,9 +459,11 @@ def _(v):
     except Exception as ex:
         bad, detail = [ex], repr(ex)[:200]
     v.prove("every_symbol_through_the_parser", len(iupac.TABLE) == 118 and not bad, detail)
-    fr = mass_fractions({"H2": 2, "O2": 1})
-    tot = 2 * M("H2") + M("O2")
-    v.prove("mass_fractions_from_formula_keys", set(fr) == {"H2", "O2"} and close(fr["H2"], 2 * M("H2") / tot) and close(fr["O2"], M("O2") / tot) and close(sum(fr.values()), 1.0) and all(x > 0 for x in fr.values()))
+    def from_formula_keys():
+        fr = mass_fractions({"H2": 2, "O2": 1})
+        tot = 2 * M("H2") + M("O2")
+        return set(fr) == {"H2", "O2"} and close(fr["H2"], 2 * M("H2") / tot) and close(fr["O2"], M("O2") / tot) and close(sum(fr.values()), 1.0) and all(x > 0 for x in fr.values())
+    ob("mass_fractions_from_formula_keys", from_formula_keys)
     # the factory given by the caller makes the substances: called with the keys (and nothing else), and ITS masses are the ones used (keys that are no
     # formulas, masses that no formula has: 3*2 : 1*10 = 0.375 : 0.625); with Species.from_formula the phases do not weigh (hand sums)
     try:
@@ -430,9 +512,14 @@ def _(v):
     from types import MappingProxyType
     from chempy.chemistry import mass_fractions, Substance
     d = {"H2O": 3, "NaCl": 1, "C2H5OH": 0.5}
-    m = {k: Substance.from_formula(k).mass for k in d}
-    tot = sum(d[k] * m[k] for k in d)
-    want = {k: d[k] * m[k] / tot for k in d}
+    try:
+        m = {k: Substance.from_formula(k).mass for k in d}
+        tot = sum(d[k] * m[k] for k in d)
+        want = {k: d[k] * m[k] / tot for k in d}
+    except Exception as ex:         # (the masses themselves: masses_of_written_formulas) nothing to compare with - both obligations fail, the harness goes on
+        v.prove("coefficients_honoured_for_every_mapping", False, detail=repr(ex)[:200])
+        v.prove("set_of_keys_means_unit_coefficients", False, detail=repr(ex)[:200])
+        return
     dd = defaultdict(int)
     dd.update(d)
     bad = []
@@ -445,8 +532,11 @@ def _(v):
             bad.append((label, repr(ex)[:80]))
     v.prove("coefficients_honoured_for_every_mapping", not bad, detail=repr(bad[:2]))
     tot1 = sum(m.values())
-    got = mass_fractions(set(d))
-    v.prove("set_of_keys_means_unit_coefficients", all(abs(got[k] - m[k] / tot1) < 1e-14 for k in d))
+
+    def unit_coefficients():
+        got = mass_fractions(set(d))
+        return all(abs(got[k] - m[k] / tot1) < 1e-14 for k in d)
+    _each_on_its_own(v)("set_of_keys_means_unit_coefficients", unit_coefficients)
 
 
 _STATES = ("(s)", "(l)", "(g)", "(aq)")
